@@ -3,6 +3,5 @@ CONSTANTS
   Keys = {}
   Seeds = {}
   Obs <- ObsTrace
-INVARIANTS JenkinsSame
 POSTCONDITION TraceAccepted
 CHECK_DEADLOCK FALSE
